@@ -38,6 +38,7 @@ package xpath
 import (
 	"bytes"
 	"encoding/xml"
+	"errors"
 	"fmt"
 	"strconv"
 	"unicode/utf8"
@@ -500,8 +501,13 @@ func (x *CommonLex) LexNum(c rune) (int, TokVal) {
 		return false
 	}
 	b := x.ConstructToken(c, numMatcher, xutils.GetTokenName(xutils.NUM))
-	val, err := strconv.ParseFloat(b.String(), 10)
+	val, err := strconv.ParseFloat(b.String(), 64)
 
+	// A Number beyond the range of a double is the infinity ParseFloat
+	// returns with it (round to nearest), not a malformed number.
+	if errors.Is(err, strconv.ErrRange) {
+		err = nil
+	}
 	if err != nil {
 		x.SetError(fmt.Errorf("bad number %q", b.String()))
 		return xutils.ERR, nil
